@@ -10,7 +10,9 @@
 #include <nitro/lang/fixed_vector.hpp>
 #include <nitro/lang/reverse.hpp>
 
+#include <algorithm>
 #include <array>
+#include <iterator>
 #include <memory>
 #include <set>
 #include <stdexcept>
@@ -234,11 +236,59 @@ static std::vector<int> ints(const J& a)
     return r;
 }
 
+// A single-pass input iterator over a vector (the std::istream_iterator kind): all copies share the read position, so
+// a range can be walked exactly once.  The range operations of fixed_vector take any iterator.
+template <typename E>
+struct SinglePass
+{
+    using iterator_category = std::input_iterator_tag;
+    using value_type = E;
+    using difference_type = std::ptrdiff_t;
+    using pointer = const E*;
+    using reference = const E&;
+    const std::vector<E>* v = nullptr; // nullptr: the end iterator
+    std::shared_ptr<std::size_t> pos;
+    bool at_end() const
+    {
+        return !v || *pos >= v->size();
+    }
+    reference operator*() const
+    {
+        return (*v)[*pos];
+    }
+    SinglePass& operator++()
+    {
+        ++*pos;
+        return *this;
+    }
+    void operator++(int)
+    {
+        ++*pos;
+    }
+    bool operator==(const SinglePass& o) const
+    {
+        return at_end() && o.at_end();
+    }
+    bool operator!=(const SinglePass& o) const
+    {
+        return !(*this == o);
+    }
+};
+template <typename E>
+static SinglePass<E> single_pass_begin(const std::vector<E>& v)
+{
+    SinglePass<E> it;
+    it.v = &v;
+    it.pos = std::make_shared<std::size_t>(0);
+    return it;
+}
+
 template <typename E, bool Copyable>
 struct Runner
 {
     using FV = nitro::lang::fixed_vector<E>;
     Pool<E> pool;
+    unsigned range_calls = 0; // every other range operation is fed from a single-pass input iterator
     explicit Runner(std::size_t n) : pool(n)
     {
     }
@@ -250,7 +300,7 @@ struct Runner
         if (op == "ConstructFrom")
         {
             std::vector<E> src;
-            src.reserve(8); // no reallocation: element moves inside the driver must not consume the throw budget
+            src.reserve(std::max<std::size_t>(8, a[a.size() - 1].size())); // no reallocation: element moves inside the driver must not consume the throw budget
             for (int x : ints(a[2]))
                 src.emplace_back(x);
             pool.c[idx(0)] = std::make_unique<FV>(static_cast<std::size_t>(a[1].num()), src);
@@ -326,20 +376,26 @@ struct Runner
         if (op == "RangeInsert")
         {
             std::vector<E> src;
-            src.reserve(8); // no reallocation: element moves inside the driver must not consume the throw budget
+            src.reserve(std::max<std::size_t>(8, a[a.size() - 1].size())); // no reallocation: element moves inside the driver must not consume the throw budget
             for (int x : ints(a[2]))
                 src.emplace_back(x);
             FV& v = *pool.c[idx(0)];
-            v.insert(v.begin() + a[1].num(), src.begin(), src.end());
+            if (++range_calls % 2 == 0)
+                v.insert(v.begin() + a[1].num(), single_pass_begin(src), SinglePass<E>());
+            else
+                v.insert(v.begin() + a[1].num(), src.begin(), src.end());
             return J("ok");
         }
         if (op == "PushBackRange")
         {
             std::vector<E> src;
-            src.reserve(8); // no reallocation: element moves inside the driver must not consume the throw budget
+            src.reserve(std::max<std::size_t>(8, a[a.size() - 1].size())); // no reallocation: element moves inside the driver must not consume the throw budget
             for (int x : ints(a[1]))
                 src.emplace_back(x);
-            pool.c[idx(0)]->push_back(src.begin(), src.end());
+            if (++range_calls % 2 == 0)
+                pool.c[idx(0)]->push_back(single_pass_begin(src), SinglePass<E>());
+            else
+                pool.c[idx(0)]->push_back(src.begin(), src.end());
             return J("ok");
         }
         return J("unsupported");
